@@ -427,7 +427,35 @@ func registerCodecModels(e *Engine) {
 	m["net/http.MaxBytesReader"] = func(x *Exec, fr *frame, a []Value) Value {
 		return nativeIface("limitr", &streamObj{kind: "maxbytes", w: a[1], limit: x.term(a[2])})
 	}
+	// hasMethod: does the dynamic type of an interface value (a module or library
+	// type, not an engine native) have the method?
+	hasMethod := func(x *Exec, v Value, name string) bool {
+		iv, ok := x.force(v).(*IfaceV)
+		if !ok || iv.T == nil || iv.T == nativeType {
+			return false
+		}
+		if _, isNative := x.force(iv.V).(*Native); isNative {
+			return false
+		}
+		return types.NewMethodSet(iv.T).Lookup(nil, name) != nil
+	}
+	m["(*bytes.Buffer).ReadFrom"] = func(x *Exec, fr *frame, a []Value) Value {
+		p := bufPtr(x, a[0])
+		data, err := x.readAllFrom(fr, a[1])
+		if err != nil {
+			return TupleV{IntC(0), err}
+		}
+		bufSet(x, p, Concat(bufGet(x, p), data))
+		return TupleV{x.lenOf(data), NilIface}
+	}
 	m["io.Copy"] = func(x *Exec, fr *frame, a []Value) Value {
+		// io.Copy prefers src.WriteTo(dst), then dst.ReadFrom(src), over a Read/Write loop
+		if hasMethod(x, a[1], "WriteTo") {
+			return x.invoke(fr, x.force(a[1]), "WriteTo", nil, []Value{a[0]}, nil)
+		}
+		if hasMethod(x, a[0], "ReadFrom") {
+			return x.invoke(fr, x.force(a[0]), "ReadFrom", nil, []Value{a[1]}, nil)
+		}
 		data, err := x.readAllFrom(fr, a[1])
 		if err != nil {
 			return TupleV{IntC(0), err}
@@ -505,6 +533,32 @@ func registerCodecModels(e *Engine) {
 	m["encoding/xml.NewDecoder"] = func(x *Exec, fr *frame, a []Value) Value {
 		return &Native{Kind: "xmldec", Data: &streamObj{w: a[0]}}
 	}
+	// d.Token(): contract for the "peek at the root element" idiom. Reading a token
+	// materialises it, and a token may be as large as the stream (a comment or blank
+	// run in front of the root, an attribute value of the root), so the whole content
+	// of the source counts as materialised (bounded or not by what the source is).
+	// The call returns an error or the first start element with arbitrary attributes;
+	// tokens in front of it are skipped (stated approximation).
+	m["(*encoding/xml.Decoder).Token"] = func(x *Exec, fr *frame, a []Value) Value {
+		s, ok := a[0].(*Native).Data.(*streamObj)
+		if !ok {
+			panic(abortf("(*xml.Decoder).Token inside a custom UnmarshalXML (no contract)"))
+		}
+		if !s.closed {
+			s.closed = true // the source is read once
+			if _, err := x.readAllFrom(fr, s.w); err != nil {
+				return TupleV{NilIface, err}
+			}
+		}
+		x.unreplayable = append(x.unreplayable, "token-level read of a document")
+		x.tokenSeq++
+		if !x.Branch(x.sym(fmt.Sprintf("xmltoken!%d.ok", x.tokenSeq), SBool)) {
+			return TupleV{NilIface, x.errorC("EOF / XML syntax error")}
+		}
+		st := x.E.namedType("encoding/xml", "StartElement")
+		return TupleV{&IfaceV{T: st, V: x.lazyValue(st, fmt.Sprintf("xmltoken!%d", x.tokenSeq))}, NilIface}
+	}
+	m["(*encoding/xml.Decoder).RawToken"] = m["(*encoding/xml.Decoder).Token"]
 	m["(*encoding/xml.Decoder).Decode"] = func(x *Exec, fr *frame, a []Value) Value {
 		s, ok := a[0].(*Native).Data.(*streamObj)
 		if !ok {
